@@ -11,7 +11,14 @@ From PcoreV Require Import Model.Base.
 Import ListNotations.
 Open Scope Z_scope.
 
-Definition val := Z.
+(* A value of the hash is a Go interface{}: the nil interface - `Put(k, nil)`, "declared, no value" - or a value proper
+   (the harness uses int64).  A key associated with nil is PRESENT: Get answers (nil, true), Includes true, Len counts
+   it, ComputeIfAbsent does not compute, GetOrDefault answers nil and not its default.  px.Equals (px/equality.go:48,
+   used by Equals below): nil equals nil only, int64 by ==. *)
+Inductive val := VNil | VInt (z : Z).
+Coercion VInt : Z >-> val.
+Definition val_eqb (a b : val) : bool :=
+  match a, b with VNil, VNil => true | VInt x, VInt y => Z.eqb x y | _, _ => false end.
 
 Record sh := mkSh { entries : list (str * val); index : list (str * Z); frozen : bool; cap : nat }.
 
@@ -182,7 +189,7 @@ Fixpoint equals_loop (es : list (str * val)) (o : sh) : out :=
     | None => RBool false
     | Some p => match eget (entries o) p with
                 | None => RFault
-                | Some e => if Z.eqb v (snd e) then equals_loop r o else RBool false
+                | Some e => if val_eqb v (snd e) then equals_loop r o else RBool false
                 end
     end
   end.
@@ -411,7 +418,7 @@ Fixpoint s_put_all (h : ssh) (es : list (str * val)) : ssh * out :=
 Definition s_equals (h o : ssh) : bool :=
   Nat.eqb (length (sents h)) (length (sents o)) &&
   forallb (fun kv => match s_lookup (sents o) (fst kv) with
-                     | Some v => Z.eqb (snd kv) v | None => false end) (sents h).
+                     | Some v => val_eqb (snd kv) v | None => false end) (sents h).
 
 
 (* Iteration of the abstract map: the callback is called once for every entry the map held WHEN THE ITERATION
@@ -502,7 +509,7 @@ Definition acts_plain (acts : list (act * bool)) : bool := forallb (fun a => act
 Definition op_plain (o : op) : bool := match o with OIter _ _ acts => acts_plain acts | _ => true end.
 Definition ops_plain (ops : list op) : bool := forallb op_plain ops.
 Definition erase_values (o : out) : out :=
-  match o with RIter ks vs b => RIter ks (map (fun _ => 0) vs) b | _ => o end.
+  match o with RIter ks vs b => RIter ks (map (fun _ => VNil) vs) b | _ => o end.
 
 Fixpoint s_run (hp : sheap) (ops : list op) : sheap * list out :=
   match ops with
@@ -511,8 +518,8 @@ Fixpoint s_run (hp : sheap) (ops : list op) : sheap * list out :=
   end.
 
 (* executable equality on outputs, for the correspondence files *)
-Definition oval_eqb := option_eqb Z.eqb.
-Definition pair_eqb (a b : str * val) := str_eqb (fst a) (fst b) && Z.eqb (snd a) (snd b).
+Definition oval_eqb := option_eqb val_eqb.
+Definition pair_eqb (a b : str * val) := str_eqb (fst a) (fst b) && val_eqb (snd a) (snd b).
 Definition out_eqb (a b : out) : bool :=
   match a, b with
   | RUnit, RUnit | RFrozen, RFrozen | RFault, RFault | RBadObj, RBadObj | RPanic, RPanic => true
@@ -522,8 +529,25 @@ Definition out_eqb (a b : out) : bool :=
   | RBool x, RBool y => Bool.eqb x y
   | RInt x, RInt y => Z.eqb x y
   | RKeys x, RKeys y => list_eqb str_eqb x y
-  | RVals x, RVals y => list_eqb Z.eqb x y
+  | RVals x, RVals y => list_eqb val_eqb x y
   | RPairs x, RPairs y => list_eqb pair_eqb x y
-  | RIter k1 v1 b1, RIter k2 v2 b2 => list_eqb str_eqb k1 k2 && list_eqb Z.eqb v1 v2 && Bool.eqb b1 b2
+  | RIter k1 v1 b1, RIter k2 v2 b2 => list_eqb str_eqb k1 k2 && list_eqb val_eqb v1 v2 && Bool.eqb b1 b2
   | _, _ => false
+  end.
+
+(* What a Go caller can tell from a result.  Get and Put return a presence flag next to the value (RVal / RPut with
+   an option); Delete, GetOrDefault and ComputeIfAbsent return a bare interface{}: for them "the value nil of a
+   present key" and "nothing" (Delete of an absent key) look alike.  `go_view` is that projection; the correspondence
+   compares the model's result with the observed one through it. *)
+Definition bare_result (o : op) : bool :=
+  match o with
+  | ODelete _ _ | OGetOrDefault _ _ _ | OCompute _ _ _ | OComputePanic _ _ | OComputePut _ _ _ _ _ => true
+  | _ => false
+  end.
+Definition go_view (o : op) (r : out) : out :=
+  if bare_result o then match r with RVal (Some VNil) => RVal None | _ => r end else r.
+Fixpoint go_views (ops : list op) (rs : list out) : list out :=
+  match ops, rs with
+  | o :: ops', r :: rs' => go_view o r :: go_views ops' rs'
+  | _, _ => rs
   end.
